@@ -381,8 +381,9 @@ impl Duration {
 
     /// Returns the truncated nanoseconds in a signed 64 bit integer, if the duration fits.
     pub fn try_truncated_nanoseconds(&self) -> Result<i64, HifitimeError> {
-        // If it fits, we know that the nanoseconds also fit. abs() will fail if the centuries are min'ed out.
-        if self.centuries == i16::MIN || self.centuries.abs() >= 3 {
+        // If it fits, we know that the nanoseconds also fit.
+        // Century -3 covers [-3, -2) centuries, most of which fits on an i64 (i64::MIN is about -2.92 centuries).
+        if self.centuries < -3 || self.centuries >= 3 {
             Err(HifitimeError::Duration {
                 source: DurationError::Underflow,
             })
@@ -404,10 +405,13 @@ impl Duration {
             }
         } else {
             // Centuries negative by a decent amount
-            Ok(
-                i64::from(self.centuries) * NANOSECONDS_PER_CENTURY as i64
-                    + self.nanoseconds as i64,
+            i64::try_from(
+                i128::from(self.centuries) * i128::from(NANOSECONDS_PER_CENTURY)
+                    + i128::from(self.nanoseconds),
             )
+            .map_err(|_| HifitimeError::Duration {
+                source: DurationError::Underflow,
+            })
         }
     }
 
